@@ -283,7 +283,10 @@ AllCells(n) == Cells(1, n)
 NoPar == << 0, 0, 0, 0 >>
 Mk(api, gk, rk, lst, h, w, u, par, depth, flag) ==
     [api |-> api, gk |-> gk, rk |-> rk, lst |-> lst, h |-> h, w |-> w, u |-> u, par |-> par, depth |-> depth, flag |-> flag,
-     cls |-> "base"]
+     cls |-> "base",
+     store |-> "slim",       \* how the input Grid2D stores its values: "slim", "native_view" (grid.native), "store_native"
+     ret |-> "ndarray",      \* what the user function returns: plain "ndarray"s, or "struct"ures derived from the input grid
+     inner |-> "none"]       \* re-entrant evaluation: while running, the function evaluates decorated methods on a grid of this kind
 OfClass(S, gk) == { [r EXCEPT !.cls = c] : r \in S, c \in ClassesOf(gk) \ {"base"} }
 
 \* The families of instances.  (One definition and one disjunct of Init per family: TLC enumerates them one after the other;
@@ -342,12 +345,27 @@ ClsG1D ==
     \cup OfClass(UNION { { Mk("project", "g1d", "values", FALSE, 1, n, u, << 0, 0, 0, aq >>, 0, FALSE) : u \in Masks(<<1, n>>) }
                           : n \in ClsLens, aq \in AngleQs \cap {-1, 0, 1, NoAngle} }, "g1d")
 
+\* the wrapping decorators on a small family of grids, as the base of the two families below
+WrapSmall ==
+    UNION { UNION { { Mk(a, "g2d", ResultKindOf(a), l, sh[1], sh[2], u, NoPar, 0, FALSE) : u \in Masks(sh) }
+                    : sh \in ClsShapes } : a \in {"to_array", "to_grid", "to_vector_yx"}, l \in BOOLEAN }
+WrapSmallFlat ==
+    { Mk(a, "irr", ResultKindOf(a), l, 1, n, AllCells(n), NoPar, 0, FALSE) : a \in {"to_array", "to_grid", "to_vector_yx"}, l \in BOOLEAN, n \in ClsLens }
+    \cup UNION { { Mk(a, "g1d", ResultKindOf(a), l, 1, n, u, NoPar, 0, FALSE) : u \in Masks(<<1, n>>) }
+                 : a \in {"to_array", "to_grid"}, l \in BOOLEAN, n \in ClsLens }
+\* native-stored input grids and user functions returning structures derived from the input grid
+StoredG2D == { [r EXCEPT !.store = st, !.ret = rt] : r \in WrapSmall, st \in {"slim", "native_view", "store_native"}, rt \in {"ndarray", "struct"} }
+             \ WrapSmall
+\* re-entrant user functions: evaluated on grid A, the function evaluates decorated methods of the same object on a grid B
+ReentInst == { [r EXCEPT !.inner = k] : r \in WrapSmall \cup WrapSmallFlat, k \in {"g2d", "irr", "g1d"} }
+
 Init == /\ \/ "wrap" \in Families /\ (inst \in WrapG2D \/ inst \in WrapIrr \/ inst \in WrapG1D)
            \/ "project" \in Families /\ (inst \in ProjG2D \/ inst \in ProjIrr \/ inst \in ProjG1D)
            \/ "transform" \in Families /\ (inst \in TransG2D \/ inst \in TransFlat)
            \/ "reloc" \in Families /\ (inst \in RelocG2D \/ inst \in RelocPoints)
            \/ "tiny" \in Families /\ (inst \in TinyPoints \/ inst \in TinyG2D)
            \/ "classes" \in Families /\ (inst \in ClsG2D \/ inst \in ClsIrr \/ inst \in ClsG1D)
+           \/ "classes" \in Families /\ (inst \in StoredG2D \/ inst \in ReentInst)
         /\ phase = "call"
         /\ obs = << >>
         /\ grid = BuiltTerms(Cardinality(inst.u))
@@ -366,8 +384,15 @@ RelPoints ==
     ELSE << << inst.par[2], inst.par[3] >> >>
 
 \* one decorated call: the function receives the input coordinates (tags 0 .. n-1) and the decorator builds the result
+\* a re-entrant function first evaluates decorated methods on the other grid B (a complete, independent call) ...
+Enter ==
+    /\ phase = "call" /\ inst.inner # "none"
+    /\ phase' = "nested"
+    /\ obs' = [ inner |-> Dispatch("to_array", inst.inner, "values", FALSE, Iota(2), AllCells(2), 1, 2) ]
+    /\ UNCHANGED << inst, grid, hist, cfg >>
+\* ... and then returns its own result, which is wrapped for ITS grid A whatever happened in between
 Returns ==
-    /\ phase = "call"
+    /\ phase = (IF inst.inner = "none" THEN "call" ELSE "nested")
     /\ phase' = "returned"
     /\ obs' = [ d      |-> Dispatch(inst.api, inst.gk, inst.rk, inst.lst, Iota(NPts), inst.u, inst.h, inst.w),
                 single |-> Dispatch(inst.api, inst.gk, inst.rk, FALSE, Iota(NPts), inst.u, inst.h, inst.w),
@@ -375,7 +400,8 @@ Returns ==
     /\ PrintT(ToJson([k |-> "inst", api |-> inst.api, gk |-> inst.gk, rk |-> inst.rk, lst |-> inst.lst,
                       h |-> inst.h, w |-> inst.w,
                       u |-> LET ss == SlimSeq(inst.u, inst.h, inst.w) IN [j \in 1 .. Len(ss) |-> Lin(ss[j], inst.w)],
-                      par |-> inst.par, depth |-> inst.depth, flag |-> inst.flag, cls |-> inst.cls]))
+                      par |-> inst.par, depth |-> inst.depth, flag |-> inst.flag, cls |-> inst.cls,
+                      store |-> inst.store, ret |-> inst.ret, inner |-> inst.inner]))
     /\ grid' = grid           \* the input grid is read, never written
     /\ UNCHANGED << inst, hist, cfg >>
 
@@ -388,7 +414,7 @@ Transform == inst.api = "transform" /\ Returns
 RelocateToRadialMinimum == inst.api = "reloc" /\ Returns
 ProfileStack == inst.api \in {"stack_array", "stack_grid"} /\ Returns
 
-Next == ToArray \/ ToGrid \/ ToVectorYX \/ ProjectGrid \/ Transform \/ RelocateToRadialMinimum \/ ProfileStack
+Next == Enter \/ ToArray \/ ToGrid \/ ToVectorYX \/ ProjectGrid \/ Transform \/ RelocateToRadialMinimum \/ ProfileStack
 Spec == Init /\ [][Next]_vars
 
 -----------------------------------------------------------------------------
@@ -505,7 +531,9 @@ Wraps == inst.api \in {"to_array", "to_grid", "to_vector_yx", "project", "stack_
 \* every explored call is one the property speaks about, and gets a container class of the grid's own family
 DomainAndKinds ==
     /\ InDomain(inst.api, inst.gk, inst.rk)
-    /\ inst.cls \in ClassesOf(inst.gk)      \* (the container class below is a function of the KIND only: Dispatch never sees cls)
+    /\ inst.cls \in ClassesOf(inst.gk)
+    /\ inst.store \in {"slim", "native_view", "store_native"} /\ inst.ret \in {"ndarray", "struct"}
+    /\ inst.inner \in {"none", "g2d", "irr", "g1d"} /\ (inst.store # "slim" => inst.gk = "g2d")      \* (the container class below is a function of the KIND only: Dispatch never sees cls)
     /\ (Returned /\ Wraps) =>
          /\ inst.gk = "irr" => obs.d.kind \in {"ArrayIrregular", "Grid2DIrregular", "VectorYX2DIrregular"}
          /\ inst.gk = "g2d" /\ inst.api # "project" => obs.d.kind \in {"Array2D", "Grid2D", "VectorYX2D"}
